@@ -133,6 +133,7 @@ def value_task(args):
     install_stubs(ST)
     install_convert()
     import musicxml.parser.parser as P
+    install_stubs(ST)
     import musicxml.xmlelement.xmlelement as X
     obs = []
     st = xsdspec.element_simple_type(tkey)
@@ -152,14 +153,22 @@ def value_task(args):
     d = xsdspec.SIMPLE[st]
     from .c05 import NORMALISED_MODE
     # ---- C08: own output
-    for tag in ('str', 'int', 'float'):
+    for tag0 in ('str', 'str-interior', 'int', 'float'):
+        tag = 'str' if tag0 == 'str-interior' else tag0
         res = {'ok': True, 'detail': None, 'paths': 0, 'wit': None, 'accepted': 0}
 
         def harness():
             v, term = V.make(tag)
-            NORMALISED_MODE[0] = True
-            if tag == 'str':
+            NORMALISED_MODE[0] = (tag0 != 'str-interior')
+            if tag0 == 'str':
                 E.assume(z3.InRe(term, z3.Intersect(lex.COLLAPSED_RE, lex.NO_EXOTIC_RE)))
+            if tag0 == 'str-interior':
+                # interior whitespace (runs, tabs, line breaks) but no exterior whitespace: must survive the round trip verbatim
+                nw = rx.charset_re(rx._neg([(0x20, 0x20), (0x9, 0xA), (0xD, 0xD)]))
+                anyc = z3.Star(rx.charset_re([(0, 0xFFFF)]))
+                E.assume(z3.InRe(term, z3.Intersect(z3.Complement(lex.COLLAPSED_RE), lex.NO_EXOTIC_RE, z3.Concat(nw, anyc, nw))))
+                for ax in lex.collapse_axioms(term, d.enums or []):
+                    E.ctx.solver.add(ax)
             try:
                 cls(v)
             except (TypeError, ValueError):
@@ -193,7 +202,7 @@ def value_task(args):
         status = 'undecided' if (uns or res['ok'] is None) else ('discharged' if res['ok'] else 'violated')
         if res['accepted'] == 0 and not uns:
             continue        # the type accepts no value of this tag: nothing to round-trip
-        obs.append(dict(oid=f'C08/value/{name}/{tag}', props=['C08'], status=status, detail=(uns[0] if uns else res['detail']), paths=res['paths'], name=name, cname=cname,
+        obs.append(dict(oid=f'C08/value/{name}/{tag0}', props=['C08'], status=status, detail=(uns[0] if uns else res['detail']), paths=res['paths'], name=name, cname=cname,
                         kind='value', tag=tag, witness=res['wit'], level='proved'))
     # ---- C09: any text of the lexical space, normalised form, no exterior whitespace
     res = {'ok': True, 'detail': None, 'paths': 0, 'wit': None}
@@ -259,6 +268,7 @@ def attr_task(args):
     install_stubs(ST)
     install_convert()
     import musicxml.parser.parser as P
+    install_stubs(ST)
     import musicxml.xmlelement.xmlelement as X
     from .c05 import NORMALISED_MODE
     cls = getattr(X, cname)
